@@ -10,6 +10,8 @@
 //!                                             names = all | none | generic | sub<seed>
 //!   M <lang> <names> <hex>                    single-layer highlight (highlights query only) + the layer's
 //!                                             capture list through the public query API, for the merge model
+//!   N <root> <variant> <names> <hex>          multi-layer highlight WITHOUT locals queries + every layer's raw
+//!                                             capture sequence (public query API), for the multi-layer merge model
 //! Events are written `S<start>-<end>`, `H<highlight>`, `E`, comma separated.
 use std::collections::BTreeMap;
 use std::io::Write;
@@ -559,6 +561,200 @@ fn emit_merge(w: &mut World, out: &mut impl Write, id: &str, li: usize, names_mo
     watch_end();
 }
 
+struct LayerOut {
+    depth: usize,
+    caps: Vec<String>,
+}
+
+/// Mirror of `HighlightIterLayer::new` + the injection branch of `HighlightIter::next`, through the
+/// public API only: returns the ids of the layers that `new` would return for (language, depth,
+/// ranges), having appended them (and, recursively, the layers of their injections) to `out`.
+/// Each layer's caps are its RAW captures in cursor order: `s-e-node-<h|n>` for a highlight pattern,
+/// `s-e-node-I<id+id..>` for the first capture of an injection match (the match is removed).
+#[allow(clippy::too_many_arguments)]
+fn build_layers(langs: &[LangDef], cfgs: &[HighlightConfiguration], variant: usize, names: &[String], li0: usize, depth0: usize, ranges0: Vec<(usize, usize)>, src: &[u8], out: &mut Vec<LayerOut>, overflow: &mut bool) -> Vec<usize> {
+    let mut result = Vec::new();
+    let mut queue: Vec<(usize, usize, Vec<(usize, usize)>)> = Vec::new();
+    let (mut li, mut depth, mut ranges) = (li0, depth0, ranges0);
+    loop {
+        if depth > 12 || out.len() > 250 {
+            *overflow = true;
+            return result;
+        }
+        let ld = &langs[li];
+        let mut parser = Parser::new();
+        parser.set_language(&ld.language).unwrap();
+        let rr: Vec<Range> = ranges.iter().map(|&(s, e)| to_range(src, s, e)).collect();
+        if parser.set_included_ranges(&rr).is_ok() {
+            let tree = parser.parse(src, None).expect("parse");
+            let inj_src = &ld.inj[variant];
+            let inj_patterns = if inj_src.trim().is_empty() { 0 } else { Query::new(&ld.language, inj_src).expect("inj query").pattern_count() };
+            // combined injections of this layer (processed eagerly, queued behind this layer)
+            if inj_patterns > 0 {
+                let cq = Query::new(&ld.language, inj_src).unwrap();
+                let content_ix = cq.capture_index_for_name("injection.content");
+                let lang_ix = cq.capture_index_for_name("injection.language");
+                let mut entries: Vec<(Option<String>, Vec<Node>, bool)> = vec![(None, Vec::new(), false); cq.pattern_count()];
+                let mut cursor = QueryCursor::new();
+                let mut matches = cursor.matches(&cq, tree.root_node(), src);
+                while let Some(m) = matches.next() {
+                    if !cq.property_settings(m.pattern_index).iter().any(|p| p.key.as_ref() == "injection.combined") {
+                        continue;
+                    }
+                    let mut lang_name: Option<String> = None;
+                    let mut content = None;
+                    for c in m.captures {
+                        if Some(c.index) == lang_ix {
+                            lang_name = c.node.utf8_text(src).ok().map(|s| s.to_string());
+                        } else if Some(c.index) == content_ix {
+                            content = Some(c.node);
+                        }
+                    }
+                    let mut incl = false;
+                    for p in cq.property_settings(m.pattern_index) {
+                        match p.key.as_ref() {
+                            "injection.language" if lang_name.is_none() => lang_name = p.value.as_ref().map(|v| v.to_string()),
+                            "injection.include-children" => incl = true,
+                            _ => {}
+                        }
+                    }
+                    let e = &mut entries[m.pattern_index];
+                    if lang_name.is_some() {
+                        e.0 = lang_name;
+                    }
+                    if let Some(n) = content {
+                        e.1.push(n);
+                    }
+                    e.2 = incl;
+                }
+                drop(matches);
+                for (name, nodes, incl) in entries {
+                    if let (Some(name), false) = (name, nodes.is_empty()) {
+                        if let Some(ci) = lang_index(&name) {
+                            let r = content_ranges(&ranges, &nodes, incl);
+                            if !r.is_empty() {
+                                queue.push((ci, depth + 1, r));
+                            }
+                        }
+                    }
+                }
+            }
+            // the layer itself: raw captures of the configuration's query
+            let id = out.len();
+            out.push(LayerOut { depth, caps: Vec::new() });
+            let query = &cfgs[li].query;
+            let content_ix = query.capture_index_for_name("injection.content");
+            let lang_ix = query.capture_index_for_name("injection.language");
+            let cap_names = query.capture_names();
+            let mut caps = Vec::new();
+            let mut cursor = QueryCursor::new();
+            let mut it = cursor.captures(query, tree.root_node(), src);
+            while let Some((m, ci)) = it.next() {
+                let c = m.captures[*ci];
+                let (s, e, nid) = (c.node.start_byte(), c.node.end_byte(), c.node.id());
+                if m.pattern_index < inj_patterns {
+                    let mut lang_name: Option<String> = None;
+                    let mut content = None;
+                    for c2 in m.captures {
+                        if Some(c2.index) == lang_ix {
+                            lang_name = c2.node.utf8_text(src).ok().map(|s| s.to_string());
+                        } else if Some(c2.index) == content_ix {
+                            content = Some(c2.node);
+                        }
+                    }
+                    let mut incl = false;
+                    for p in query.property_settings(m.pattern_index) {
+                        match p.key.as_ref() {
+                            "injection.language" if lang_name.is_none() => lang_name = p.value.as_ref().map(|v| v.to_string()),
+                            "injection.include-children" => incl = true,
+                            _ => {}
+                        }
+                    }
+                    m.remove();
+                    let mut ids = Vec::new();
+                    if let (Some(name), Some(node)) = (lang_name, content) {
+                        if let Some(ci2) = lang_index(&name) {
+                            let r = content_ranges(&ranges, &[node], incl);
+                            if !r.is_empty() {
+                                ids = build_layers(langs, cfgs, variant, names, ci2, depth + 1, r, src, out, overflow);
+                            }
+                        }
+                    }
+                    let idstr: Vec<String> = ids.iter().map(|x| x.to_string()).collect();
+                    caps.push(format!("{s}-{e}-{nid}-I{}", idstr.join("+")));
+                } else {
+                    let h = highlight_index(cap_names[c.index as usize], names);
+                    caps.push(format!("{s}-{e}-{nid}-{}", h.map(|x| x.to_string()).unwrap_or("n".into())));
+                }
+            }
+            out[id].caps = caps;
+            result.push(id);
+        }
+        if queue.is_empty() {
+            break;
+        }
+        let (a, b, c) = queue.remove(0);
+        li = a;
+        depth = b;
+        ranges = c;
+    }
+    result
+}
+
+/// Multi-layer highlight without locals queries: real events + all layers as data.
+fn emit_multi(w: &mut World, out: &mut impl Write, id: &str, root: usize, variant: usize, names_mode: &str, src: &[u8]) -> bool {
+    let all = names_of(&w.langs, variant);
+    let names = pick_names(&all, names_mode);
+    let mut cfgs = Vec::new();
+    for (i, ld) in w.langs.iter().enumerate() {
+        let mut cfg = HighlightConfiguration::new(ld.language.clone(), LANGS[i], &ld.highlights, &ld.inj[variant], "").expect("config");
+        cfg.configure(&names);
+        cfgs.push(cfg);
+    }
+    watch_begin(format!("N {} {variant} {names_mode} {}", LANGS[root], hx(src)));
+    let mut evs = Vec::new();
+    let mut err = None;
+    {
+        let cfgs_ref = &cfgs;
+        match w.highlighter.highlight(&cfgs[root], src, None, None, move |name| lang_index(name).map(|i| &cfgs_ref[i])) {
+            Ok(it) => {
+                for e in it {
+                    match e {
+                        Ok(e) => evs.push(e),
+                        Err(e) => {
+                            err = Some(format!("{e}"));
+                            break;
+                        }
+                    }
+                    if evs.len() > 200_000 {
+                        err = Some("too-many-events".into());
+                        break;
+                    }
+                }
+            }
+            Err(e) => err = Some(format!("{e}")),
+        }
+    }
+    let mut layers = Vec::new();
+    let mut overflow = false;
+    let top = build_layers(&w.langs, &cfgs, variant, &names, root, 0, vec![(0, usize::MAX)], src, &mut layers, &mut overflow);
+    watch_end();
+    if overflow {
+        return false;
+    }
+    writeln!(out, "spec {id} N {} {variant} {names_mode} {}", LANGS[root], hx(src)).unwrap();
+    writeln!(out, "case {id}\nsrc {}\nevs {}", hx(src), evs_to_string(&evs)).unwrap();
+    if let Some(e) = &err {
+        writeln!(out, "error {}", e.replace(' ', "_")).unwrap();
+    }
+    for (i, l) in layers.iter().enumerate() {
+        writeln!(out, "layer {i} {} {}", l.depth, if l.caps.is_empty() { "-".into() } else { l.caps.join(",") }).unwrap();
+    }
+    let t: Vec<String> = top.iter().map(|x| x.to_string()).collect();
+    writeln!(out, "top {}\nrun mmerge", if t.is_empty() { "-".into() } else { t.join(",") }).unwrap();
+    layers.len() > 1
+}
+
 // ---------------------------------------------------------------------------------------------
 // generators
 
@@ -660,7 +856,14 @@ fn gen_tmpl(gg: &gen::GrammarGen, rng: &mut Rng, depth: usize) -> String {
             }
             2 if depth > 0 => s.push_str(&gen_host(gg, rng, depth - 1)),
             3 => s.push_str(&format!("<%= {} + [[{}]] %>", rng.pick(&WORDS), rng.pick(&WORDS))),
-            4 => s.push_str(&format!("<%={} %>", rng.pick(&WORDS))),
+            4 => {
+                if rng.chance(1, 2) {
+                    s.push_str(&format!("<%={} %>", rng.pick(&WORDS)))
+                } else {
+                    // code consisting of a single hole: two distinct nodes with the same range
+                    s.push_str(&format!("<%[[{}]]%>", rng.pick(&WORDS)))
+                }
+            }
             5 => s.push_str(&format!("<% {} [[{}]] {} %>", gen_stmt_locals(rng, 0), rng.pick(&WORDS), gen_stmt_locals(rng, 0))),
             _ => s.push_str(&format!("<% {} %>", String::from_utf8_lossy(&gen_stmt(gg, rng, 8)))),
         }
@@ -763,6 +966,11 @@ fn run_spec(w: &mut World, out: &mut impl Write, id: &str, fields: &[&str]) -> b
             emit_render(out, id, crh(c), &unhx(s), &parse_evs(e));
             true
         }
+        ["N", root, variant, names, s] => {
+            let r = lang_index(root).expect("root language");
+            emit_multi(w, out, id, r, variant.parse().unwrap_or(0), names, &unhx(s));
+            true
+        }
         ["M", lang, names, s] => {
             let li = lang_index(lang).expect("language");
             emit_merge(w, out, id, li, names, &unhx(s));
@@ -790,7 +998,7 @@ fn main() {
         let specs = std::fs::read_to_string(&args[3]).unwrap();
         for (i, line) in specs.lines().enumerate() {
             let f: Vec<&str> = line.split_whitespace().collect();
-            let f = if !f.is_empty() && !["L", "R", "H", "M"].contains(&f[0]) { &f[1..] } else { &f[..] };
+            let f = if !f.is_empty() && !["L", "R", "H", "M", "N"].contains(&f[0]) { &f[1..] } else { &f[..] };
             if run_spec(&mut w, &mut out, &format!("r{i}"), f) {
                 n += 1;
             }
@@ -932,6 +1140,42 @@ fn main() {
         emit_merge(&mut w, &mut out, &format!("M{i}"), li, &names, &doc);
         n += 1;
     }
+    // 6. multi-layer merge (no locals queries): real events vs all layers' raw captures
+    let nn = if thorough { 4000 } else { 450 };
+    let mut multi = 0usize;
+    for i in 0..nn {
+        let root = i % 3;
+        let variant = (i / 3) % 2;
+        let doc: Vec<u8> = match root {
+            0 => {
+                if rng.chance(1, 2) {
+                    let b = *rng.pick(&[5usize, 20, 60, 150]);
+                    gen_stmt(&stmt_gg, &mut rng, b)
+                } else {
+                    gen_stmt_locals(&mut rng, 2).into_bytes()
+                }
+            }
+            1 => gen_tmpl(&stmt_gg, &mut rng, 2).into_bytes(),
+            _ => gen_host(&stmt_gg, &mut rng, 3).into_bytes(),
+        };
+        let level = match rng.below(8) {
+            0 => 1,
+            1 => 2,
+            2 => 3,
+            _ => 0,
+        };
+        let mut doc = spice_doc(&mut rng, doc, level);
+        doc.truncate(6000);
+        let names = match rng.below(6) {
+            0 => "generic".to_string(),
+            1 | 2 => format!("sub{}", rng.below(1000)),
+            _ => "all".to_string(),
+        };
+        if emit_multi(&mut w, &mut out, &format!("N{i}"), root, variant, &names, &doc) {
+            multi += 1;
+        }
+        n += 1;
+    }
     out.flush().unwrap();
-    eprintln!("c17: wrote {n} cases ({li} lossy, {nr} render, {nh} highlight of which {with_inj} with injections, {nm} single-layer merge) to {out_path}");
+    eprintln!("c17: wrote {n} cases ({li} lossy, {nr} render, {nh} highlight of which {with_inj} with injections, {nm} single-layer merge, {nn} multi-layer merge of which {multi} with >1 layer) to {out_path}");
 }
